@@ -181,6 +181,8 @@ class Interp:
         h.keys = keys if keys is not None else z3.Empty(vm.SeqV)
         h.vals = vals if vals is not None else z3.K(V, self.U.NONE)
         h.ckeys = ckeys if ckeys is not None else ([] if keys is None else None)
+        if keys is None and ckeys is None:
+            h.fields["$entries"] = []     # built from empty by stores only: the entries in order
         st.heap[oid] = h
         return Ref(oid)
 
